@@ -372,6 +372,18 @@ def writeTextGrid (t : List Timed) (o : TgWriteOpts) : Except TgErr TgFile :=
   let p := o.precision
   .ok ⟨fmt p startTime, fmt p endTime, o.tierName, fmt p tierStart, fmt p tierEnd, tgBody t o⟩
 
+/-- The zero-length test of the `point_tier` inference made at precision `q`: every segment's start and end
+print identically with `q` digits. The code tests at the print precision (`q = precision`), see
+`isPointTier`. -/
+def inferPointAt (q : Nat) (t : List Timed) : Bool :=
+  t.all (fun x => fmt q x.2.1 == fmt q x.2.2)
+
+/-- `write_textgrid` with the inference judged at precision `q` instead of the print precision (what a
+writer that ignores the caller's `precision` in the inference does with `q = 3`). Equal to `writeTextGrid`
+for `q = o.precision`. -/
+def writeTextGridInferAt (q : Nat) (t : List Timed) (o : TgWriteOpts) : Except TgErr TgFile :=
+  writeTextGrid t { o with pointTier := some (o.pointTier.getD (inferPointAt q t)) }
+
 def TgBody.size : TgBody → Nat
   | .points l => l.length
   | .intervals l => l.length
